@@ -13,7 +13,9 @@ TIER = "quick"
 
 def configure(seed, tier):
     global SEED, TIER
-    SEED, TIER = int(seed), tier
+    # any integer is accepted as VERIF_SEED; it is folded so that every derived
+    # random_state stays inside what numpy / scipy accept (< 2**32)
+    SEED, TIER = int(seed) % 1000003, tier
     _build()
 
 
